@@ -11,7 +11,7 @@ from vlib import ToolError, log
 TAG_PROP = {
     "C17v_panic": "C17", "C17v_ok_but_blocked": "C17", "C17v_err_but_free": "C17",
     "C11r_missing_file": "C11", "C11r_missing_decl": "C11", "C11x_touched_other": "C11",
-    "C05w_malformed": "C05", "C06l_lost": "C06", "C03i_dangling_import": "C03", "confluence": None,   # confluence: C05 in same-file slices, else C06
+    "C05w_malformed": "C05", "C05s_self_import": "C05", "C06l_lost": "C06", "C03i_dangling_import": "C03", "confluence": None,   # confluence: C05 in same-file slices, else C06
 }
 
 SAMEFILE = ["Alpha", "Al1", "Al<i32>", "Al2", "AlphaBeta", "Beta", "alpha2"]
@@ -36,6 +36,11 @@ def slice_def(u, name, tier):
     if name == "underscore":          # names that agree up to `_` / `$`, next to names that are prefixes of them
         tys = ["Al_a", "Al_b", "AlDollar", "Al1", "Alpha"] + ([] if q else ["Al<i32>", "Al2"])
         calls = [u.call("export", t, "default") for t in tys] + [u.call("export_all", "Al_b", "default")]
+        f0, f = exportlib.free_alphabet(calls)
+        return dict(calls=calls, follow0=f0, follow=f, maxlen=3 if q else 4, init="empty", strict=True, confl="C05")
+    if name == "otherext":            # a shared file whose name does not end in .ts, with a dependency inside the file
+        tys = ["MtsA", "MtsB", "MtsC"]
+        calls = [u.call("export", t, "default") for t in tys] + [u.call("export_all", t, "default") for t in ["MtsA", "MtsC"]] + [u.call("export_all_to", "MtsA", "abs")]
         f0, f = exportlib.free_alphabet(calls)
         return dict(calls=calls, follow0=f0, follow=f, maxlen=3 if q else 4, init="empty", strict=True, confl="C05")
     if name == "imports":             # C05: overlapping and disjoint import sets, several names from one other shared file
